@@ -113,3 +113,93 @@ def run_routing(env, rng, out, classes):
   sink.Close()
   env.settle()
   out.extra['routing_calls'] = out.extra.get('routing_calls', 0) + n
+
+
+def run_full_client(env, rng, out, classes):
+  """A complete Kafka client from the public builder (router sink, per-topic balancers, shared
+  serializer/transport sinks) against the simulated broker: metadata bootstrap, then Puts that the
+  broker answers with seeded error codes.  Every caller gets either the ProduceResponse carrying
+  the offset the broker assigned to that very request, or a KafkaError with the broker's code."""
+  from scales.kafka import Kafka
+  from scales.kafka.sink import KafkaError
+  from . import simnet, servers
+  if _NET[0] is None:
+    _NET[0] = simnet.Network(env)
+    _NET[0].install()
+  net = _NET[0]
+  net.reset()
+  _PORT[0] += 1
+  port = _PORT[0]
+
+  class Policy(servers.DefaultPolicy):
+    def __call__(self, server, conn, req):
+      return {'delay': rng.choice([0.0005, 0.002, 0.01]) * (1 + rng.random())}
+  broker = servers.KafkaBroker(net, 'kb', port, Policy())
+  nparts = rng.choice([1, 2, 4])
+  broker.metadata = ([(7, b'kb', port)],
+                     [(0, b'topic', [(0, pid, 7, [7], [7]) for pid in range(nparts)])])
+  # codes that mean "reload metadata and retry" (3, 6, 8 ...) are left out; the rest, including codes
+  # newer brokers send that the library has no name for, go back to the caller as they are
+  codes = {}
+
+  def error_for(req):
+    msgs = req['kafka']['topics'][0]['partitions'][0]['messages']
+    return codes.get(msgs[0]['value'] if msgs else None, 0)
+  broker.error_for = error_for
+  classes.add('full-client')
+  out.obligations += 1
+  try:
+    client = Kafka.NewBuilder().SetUri('tcp://kb:%d' % port).SetName('kfull%d' % port).SetTimeout(3.0).Build()
+  except Exception as e:  # noqa
+    out.violate('full-client:build-failed', 'building a Kafka client against a healthy broker failed: %r' % e, {})
+    return
+  calls = []
+  for i in range(rng.choice([2, 5, 9])):
+    payload = b'fc-%d-%d' % (i, rng.getrandbits(30))
+    code = rng.choice([0, 0, 0, 2, 7, 10, 13, 17, 19, 20, -1])
+    codes[payload] = code
+    classes.add('full-client:error-reply' if code else 'full-client:ok-reply')
+    if code in (13, 17, 19, 20):
+      classes.add('full-client:unlisted-error-code')
+    try:
+      ar = client.Put_async(b'topic', [payload])
+    except Exception as e:  # noqa
+      out.violate('full-client:call-raised', 'Put_async raised %r' % e, {})
+      continue
+    calls.append((payload, code, ar))
+    if rng.random() < 0.4:
+      env.advance(rng.random() * 0.01)
+  env.advance(4.0)
+  by_payload = {}
+  for r in broker.requests:
+    k = r['kafka']
+    if k['api_key'] == 0 and k['topics'] and k['topics'][0]['partitions'][0]['messages']:
+      by_payload[k['topics'][0]['partitions'][0]['messages'][0]['value']] = r
+  for payload, code, ar in calls:
+    out.obligations += 1
+    r = by_payload.get(payload)
+    facts = {'code': code, 'listed': code not in (13, 17, 19, 20)}
+    if r is None:
+      out.violate('full-client:not-sent', 'Put(%r) never reached the broker' % payload, facts)
+      continue
+    if not ar.ready():
+      out.violate('full-client:no-reply', 'the broker answered Put(%r) with error code %d, the caller never got it' % (
+        payload, code), facts)
+      continue
+    exc = ar.exception
+    inner = getattr(exc, 'inner_exception', None) or exc
+    if code == 0:
+      v = ar.value if exc is None else None
+      if exc is not None or len(v) != 1 or v[0].offset != r['offset'] or v[0].error != 0:
+        out.violate('full-client:wrong-reply', 'Put(%r): broker assigned offset %r, caller got %r / %r' % (
+          payload, r['offset'], v, exc), facts)
+    else:
+      if not isinstance(inner, KafkaError) or getattr(inner, 'error_code', None) != code:
+        out.violate('full-client:wrong-error', 'the broker answered Put(%r) with error code %d, the caller got %r' % (
+          payload, code, inner if exc is not None else ar.value), facts)
+  try:
+    client.DispatcherClose()
+  except Exception:  # noqa
+    pass
+  env.advance(0.2)
+  out.extra['full_client_calls'] = out.extra.get('full_client_calls', 0) + len(calls)
